@@ -359,29 +359,50 @@ def sortDedup (ls : List Rows) (dedup : Bool) : Rows :=
   let sorted := all.mergeSort
   if dedup then sorted.eraseDups else sorted
 
+/-- the value mapping of `reindexed`: the caller's, or the default (the k-th smallest listed value ↦ k) -/
+def reMapping (i : IIndex) (mapping : Option (List (Int × Int))) : List (Int × Int) :=
+  match mapping with
+  | some m => m
+  | none =>
+    let vs := (i.entries.map (fun e => val0 e.1)).mergeSort.eraseDups
+    (List.range vs.length).map fun j => (vs.getD j 0, (j : Int))
+
+/-- `mapping.get(v, v)` -/
+def reVal (m : List (Int × Int)) (v : Int) : Int := (lookup m v).getD v
+
+/-- the key an entry moves to: its value mapped, its higher coordinates kept -/
+def reKey (m : List (Int × Int)) (k : Key) : Key :=
+  match lookup m (val0 k) with
+  | some nv => nv :: k.drop 1
+  | none => k
+
+/-- one entry of the gathering loop: skip what lands on the new common value, else collect the row-id list under
+the new key; the flag records that something was merged or dropped -/
+def gatherStep (m : List (Int × Int)) (newCommon : Int) (acc : List (Key × List Rows) × Bool) (e : Key × Rows) :
+    List (Key × List Rows) × Bool :=
+  let k := reKey m e.1
+  if val0 k == newCommon then (acc.1, true) else
+  match acc.1.find? (fun g => g.1 == k) with
+  | some _ => (acc.1.map (fun g => if g.1 == k then (g.1, g.2 ++ [e.2]) else g), true)
+  | none => (acc.1 ++ [(k, [e.2])], acc.2)
+
+/-- one new entry: a single list as it is, several concatenated, sorted and (unless told otherwise) de-duplicated -/
+def mergeGroup (assumeUnique : Bool) (g : Key × List Rows) : Key × Rows :=
+  match g.2 with
+  | [single] => (g.1, single)
+  | many => (g.1, sortDedup many (!assumeUnique))
+
+/-- the result of `reindexed` before the optional re-normalisation, and the `merged` flag -/
+def reindexedPre (i : IIndex) (m : List (Int × Int)) (assumeUnique : Bool) : IIndex × Bool :=
+  let newCommon := reVal m i.common
+  let gm := i.entries.foldl (gatherStep m newCommon) ([], false)
+  ({ entries := gm.1.map (mergeGroup assumeUnique), common := newCommon, shape := i.shape }, gm.2)
+
 /-- `reindexed(mapping, copy, shift, assume_unique)` -/
 def reindexed (i : IIndex) (mapping : Option (List (Int × Int))) (shift : Bool := true)
-    (assumeUnique : Bool := false) : M IIndex := do
-  let m := match mapping with
-    | some m => m
-    | none =>
-      let vs := (i.entries.map (fun e => val0 e.1)).mergeSort.eraseDups
-      (List.range vs.length).map fun j => (vs.getD j 0, (j : Int))
-  let newCommon := (lookup m i.common).getD i.common
-  let (gathered, merged) := i.entries.foldl (fun (acc : List (Key × List Rows) × Bool) (e : Key × Rows) =>
-    let k : Key := match lookup m (val0 e.1) with
-      | some nv => nv :: e.1.drop 1
-      | none => e.1
-    if val0 k == newCommon then (acc.1, true) else
-    match acc.1.find? (fun g => g.1 == k) with
-    | some _ => (acc.1.map (fun g => if g.1 == k then (g.1, g.2 ++ [e.2]) else g), true)
-    | none => (acc.1 ++ [(k, [e.2])], acc.2)) ([], false)
-  let es : List (Key × Rows) := gathered.map fun g =>
-    match g.2 with
-    | [single] => (g.1, single)
-    | many => (g.1, sortDedup many (!assumeUnique))
-  let idx : IIndex := { entries := es, common := newCommon, shape := i.shape }
-  if shift ∧ merged then shiftCommon idx none else pure idx
+    (assumeUnique : Bool := false) : M IIndex :=
+  let pre := reindexedPre i (reMapping i mapping) assumeUnique
+  if shift ∧ pre.2 then shiftCommon pre.1 none else pure pre.1
 
 /-- `collapsed(precedence, mapping)` -/
 def collapsed (i : IIndex) (precedence : List Int) (mapping : Option (List (Int × Int))) : M IIndex := do
